@@ -9,7 +9,7 @@ import copy
 from typing import Union, List, Optional, Dict
 
 # Local imports
-from ...connect import Connectable
+from ...connect import Connectable, connected_ports
 from ...instance import _get_connref
 from ...instantiable import (
     io,
@@ -106,7 +106,7 @@ class ResolvePortRefs(ElabPass):
                 group.add(conn)
 
             # And recursively follow its connected ports
-            for connected_port in pref._connected_ports:
+            for connected_port in connected_ports(pref):
                 follow(connected_port, group)
 
         # Collect groups of connected `PortRef`s
